@@ -133,6 +133,12 @@ func c05More() []*Scenario {
 					s.MutDelete("m", bs("a"))
 					s.MutSet("m", bs("c"), 3, bs("c1"))
 				},
+			},
+			Post: func(s *harness.SchedWorld) {
+				// the mutator goes on after the Flush has returned
+				s.MutSet("m", bs("e"), 1, bs("e2"))
+				s.MutSet("m", bs("b"), 5, bs("b2"))
+				s.MutDelete("m", bs("d"))
 			}},
 		{Name: "S8-flushes", Desc: "mutator [Set b, Delete a] || flusher [Flush, Flush]",
 			Setup: setup3(false),
